@@ -14,13 +14,13 @@ import (
 )
 
 type evalCtx struct {
-	e    *Engine
-	st   *State
-	old  *State
-	env  map[string]Val
-	pkg  *types.Package
-	fr   *Frame
-	at   *ssa.BasicBlock
+	e      *Engine
+	st     *State
+	old    *State
+	env    map[string]Val
+	pkg    *types.Package
+	fr     *Frame
+	at     *ssa.BasicBlock
 	qdepth int
 }
 
@@ -730,7 +730,14 @@ func (e *Engine) evalCall(c *evalCtx, n *ECall) Val {
 				return Val{types.Typ[types.Uint64], []*Term{rposOf(c.st, s)}}
 			}
 			return Val{types.Typ[types.Uint64], []*Term{wposOf(c.st, s)}}
-		case "tokHead", "tokRaw", "tokFix", "tokFixLE", "tokBlk", "tokEID", "tokExt", "tokKind":
+		case "tokStr":
+			// tokStr(s, p, str): the bytes of a string written by io.WriteString
+			s := e.resolveAlias(c.st, streamRef(e.eval(c, n.Args[0])))
+			pos := toWidth(e.eval(c, n.Args[1]).t(), 64, false)
+			t := e.tokLoad(c.st, s, pos)
+			str := e.eval(c, n.Args[2]).t()
+			return boolVal(And(Eq(t.kind, BVConst(tkBlk, 8)), Eq(t.m, BVConst(1, 8)), Eq(t.n, strLen(str)), Eq(t.cid, App("strcid", Ref64, str))))
+		case "tokHead", "tokRaw", "tokFix", "tokFixLE", "tokBlk", "tokEID", "tokExt", "tokKind", "tokN":
 			return e.evalTokPred(c, id.Name, n.Args)
 		case "bytesEq":
 			a := e.eval(c, n.Args[0])
@@ -956,6 +963,8 @@ func (e *Engine) evalTokPred(c *evalCtx, name string, args []Expr) Val {
 	switch name {
 	case "tokKind":
 		return Val{types.Typ[types.Uint8], []*Term{t.kind}}
+	case "tokN":
+		return Val{types.Typ[types.Uint64], []*Term{t.n}}
 	case "tokHead":
 		return boolVal(And(Eq(t.kind, BVConst(tkHead, 8)), Eq(t.m, arg(2, 8)), Eq(t.n, arg(3, 64))))
 	case "tokRaw":
@@ -968,6 +977,10 @@ func (e *Engine) evalTokPred(c *evalCtx, name string, args []Expr) Val {
 		m := wv.t().Val
 		if name == "tokFixLE" {
 			m |= 0x80
+		}
+		if m&0x7f == 1 {
+			// a single byte has no byte order
+			return boolVal(And(Eq(t.kind, BVConst(tkFix, 8)), Eq(BAnd(t.m, BVConst(0x7f, 8)), BVConst(1, 8)), Eq(t.n, arg(3, 64))))
 		}
 		return boolVal(And(Eq(t.kind, BVConst(tkFix, 8)), Eq(t.m, BVConst(m, 8)), Eq(t.n, arg(3, 64))))
 	case "tokBlk":
